@@ -114,12 +114,31 @@ static int matvec(const std::string &unit) {
     return 0;
 }
 
+
+// mixed precision: single-precision matrix, double-precision vectors (a float preconditioner under a double solver).
+// The defining formula is evaluated in the value type of the vectors: the row sum must not be rounded to float.
+static int matvec_mixed(const std::string &unit) {
+    std::vector<ptrdiff_t> ptr = {0, 2}, col = {0, 1}; std::vector<float> val = {1.0f, 1.0f};
+    backend::crs<float> A(std::make_tuple(1, ptr, col, val)); A.ncols = 2;
+    const double tiny = 1.0 / (1 << 30);                 // 1 + 2^-30 is exact in double, rounds to 1 in float
+    backend::numa_vector<double> x(2), y(1), f(1);
+    x[0] = 1.0; x[1] = tiny; f[0] = 1.0; y[0] = 0.0;
+    if (unit == "builtin_spmv") {
+        backend::spmv(1.0, A, x, 0.0, y);
+        if (y[0] != 1.0 + tiny) FAIL("spmv, float matrix [1 1], double x = (1, 2^-30): got " << y[0] - 1.0 << " + 1, expected 2^-30 + 1 (row sum rounded to the matrix precision)");
+    } else {
+        backend::residual(f, A, x, y);
+        if (y[0] != -tiny) FAIL("residual, float matrix [1 1], double x = (1, 2^-30), f = 1: got " << y[0] << " expected " << -tiny << " (row sum rounded to the matrix precision)");
+    }
+    return 0;
+}
+
 int main(int argc, char **argv) {
     if (argc < 2) return 2;
     std::string unit = argv[1];
     int rc = 0;
     if (unit.find("inner_product") != std::string::npos) rc = inner(unit);
-    else if (unit == "builtin_spmv" || unit == "builtin_residual") { rc = matvec<double>(unit); if (!rc) rc = matvec<cplx>(unit); }
+    else if (unit == "builtin_spmv" || unit == "builtin_residual") { rc = matvec<double>(unit); if (!rc) rc = matvec<cplx>(unit); if (!rc) rc = matvec_mixed(unit); }
     else { rc = vec_ops<double>(unit); if (!rc) rc = vec_ops<cplx>(unit); }
     if (!rc) std::cout << "battery passed on the real code (no failing input found)" << std::endl;
     return rc;
